@@ -41,6 +41,7 @@ CONSTANTS
   D1Fixed, D2Fixed,
   PNatSet, CNatSet, FpSet,     \* attribute domains explored by Init (subsets of NATs, CNATs, FPs)
   UnknownTargets,              \* TRUE: answers may name a session id the broker never saw
+  MaxDebug,                    \* number of /debug requests a behaviour may contain
   DupSids,                     \* TRUE: a proxy poll may reuse the session id of an earlier poll
   Bridges,                     \* configured bridge list (subset of {"default", "b2"}); "unlisted" is never configured
   None
@@ -52,6 +53,7 @@ RelayURL(fp) == IF fp = "default" THEN "wss://default.example/" ELSE "wss://b2.e
 
 VARIABLES
   pnat, pload, psid, cnat, cfp, atarget,  \* request attributes, set when the request arrives
+  dbg,                              \* number of /debug requests served so far
   ppc, wpc, cpc, apc,               \* program counters
   heapU, heapR, idmap, gauge,       \* shared state under snowflakeLock
   woffer,                           \* offer (client) held by waiter / handler of p
@@ -61,11 +63,11 @@ VARIABLES
   ptimer, ctimer,                   \* remaining ticks, -1 = not running
   presp, cresp, aresp               \* responses (observations)
 
-attrs == <<pnat, pload, psid, cnat, cfp, atarget>>
-vars == <<pnat, pload, psid, cnat, cfp, atarget, ppc, wpc, cpc, apc, heapU, heapR, idmap, gauge,
+attrs == <<pnat, pload, psid, cnat, cfp, atarget, dbg>>
+vars == <<pnat, pload, psid, cnat, cfp, atarget, dbg, ppc, wpc, cpc, apc, heapU, heapR, idmap, gauge,
           woffer, claimed, asnow, abuf, ptimer, ctimer, presp, cresp, aresp>>
 (* Responses are observations only; they never influence behaviour. *)
-view == <<pnat, pload, psid, cnat, cfp, atarget, ppc, wpc, cpc, apc, heapU, heapR, idmap, gauge,
+view == <<pnat, pload, psid, cnat, cfp, atarget, dbg, ppc, wpc, cpc, apc, heapU, heapR, idmap, gauge,
           woffer, claimed, asnow, abuf, ptimer, ctimer>>
 
 Eff(n) == IF n = "absent" THEN "unknown" ELSE n
@@ -74,7 +76,7 @@ EffNat(c) == Eff(cnat[c])
 Init ==
   /\ pnat = [p \in Proxies |-> None] /\ pload = [p \in Proxies |-> None] /\ psid = [p \in Proxies |-> None]
   /\ cnat = [c \in Clients |-> None] /\ cfp = [c \in Clients |-> None]
-  /\ atarget = [a \in Answers |-> None]
+  /\ atarget = [a \in Answers |-> None] /\ dbg = 0
   /\ ppc = [p \in Proxies |-> "idle"] /\ wpc = [p \in Proxies |-> "none"]
   /\ cpc = [c \in Clients |-> "idle"] /\ apc = [a \in Answers |-> "idle"]
   /\ heapU = {} /\ heapR = {} /\ idmap = {} /\ gauge = 0
@@ -106,7 +108,7 @@ ProxyRegister(p, nat, load, sid) ==
                                  ELSE heapR' = heapR \cup {p} /\ UNCHANGED heapU
   /\ idmap' = Without(idmap, sid) \cup {<<sid, p>>} /\ gauge' = gauge + 1
   /\ ptimer' = [ptimer EXCEPT ![p] = PT]
-  /\ UNCHANGED <<cnat, cfp, atarget, cpc, apc, woffer, claimed, asnow, abuf, ctimer, presp, cresp, aresp>>
+  /\ UNCHANGED <<cnat, cfp, atarget, dbg, cpc, apc, woffer, claimed, asnow, abuf, ctimer, presp, cresp, aresp>>
 
 (* A proxy polls again with the session id of an earlier poll q (e.g. a retry
    after a network error) while q may still be pending. *)
@@ -188,7 +190,7 @@ ClientMatch(c, nat, fp) ==
           /\ claimed' = [claimed EXCEPT ![c] = p]
           /\ cpc' = [cpc EXCEPT ![c] = "sendOffer"]
           /\ UNCHANGED cresp
-  /\ UNCHANGED <<pnat, pload, psid, atarget, ppc, wpc, apc, idmap, gauge, woffer, asnow, abuf, ptimer, ctimer, presp, aresp>>
+  /\ UNCHANGED <<pnat, pload, psid, atarget, dbg, ppc, wpc, apc, idmap, gauge, woffer, asnow, abuf, ptimer, ctimer, presp, aresp>>
 
 (* Pinned code: the proxy's unbuffered answer send meets the client's receive. *)
 AnswerRendezvous(a, c) ==
@@ -247,13 +249,21 @@ AnswerLookup(a, t) ==
      ELSE /\ apc' = [apc EXCEPT ![a] = "done"]
           /\ aresp' = [aresp EXCEPT ![a] = [kind |-> "gone"]]
           /\ UNCHANGED asnow
-  /\ UNCHANGED <<pnat, pload, psid, cnat, cfp, ppc, wpc, cpc, heapU, heapR, idmap, gauge, woffer, claimed, abuf, ptimer, ctimer, presp, cresp>>
+  /\ UNCHANGED <<pnat, pload, psid, cnat, cfp, dbg, ppc, wpc, cpc, heapU, heapR, idmap, gauge, woffer, claimed, abuf, ptimer, ctimer, presp, cresp>>
 
 -----------------------------------------------------------------------------
 (* Steps no gate holds back in a replay: they have happened before the clock moves. *)
 UrgentPending ==
   \/ \E p \in Proxies : wpc[p] = "forward" \/ ppc[p] \in {"gotOffer", "gotNil"}
   \/ (D2Fixed /\ \E c \in Clients : cpc[c] = "waitAnswer" /\ abuf[claimed[c]] # None)
+
+(* GET /debug: reads the id map under the lock and must leave everything as it
+   was (in particular the heaps and the heap indices of the waiting proxies). *)
+DebugPoll ==
+  /\ dbg < MaxDebug
+  /\ dbg' = dbg + 1
+  /\ UNCHANGED <<pnat, pload, psid, cnat, cfp, atarget, ppc, wpc, cpc, apc, heapU, heapR, idmap, gauge,
+                 woffer, claimed, asnow, abuf, ptimer, ctimer, presp, cresp, aresp>>
 
 (* Time: a tick passes only when no running timer is due. *)
 Tick ==
@@ -282,6 +292,7 @@ Arrival ==
   \/ \E p \in Proxies, nat \in PNatSet, load \in Loads, q \in Proxies : ProxyRepoll(p, nat, load, q)
   \/ \E c \in Clients, nat \in CNatSet, fp \in FpSet : ClientMatch(c, nat, fp)
   \/ \E a \in Answers, t \in Targets : AnswerLookup(a, t)
+  \/ DebugPoll
 
 Next == CodeStep \/ Arrival \/ Tick \/ Finished
 
